@@ -207,16 +207,16 @@ def run(chk):
                                        for _ in big])
     chk.notes["exhaustive"] = True
     # (b) permute
-    for _ in range(300 if quick else 3000):
+    for _ in range(300 if quick else 1500):
         permute_case(chk, r, r.randint(2, 5))
     # (c) registry histories
-    for _ in range(150 if quick else 1500):
+    for _ in range(150 if quick else 600):
         registry_history(chk, r, r.randint(2, 8 if quick else 14))
     # (d) substitute_contracted / substitute_with_generic
     g = gen.Gen(chk.seed, spaces="ovg", general_prob=0.15, spins=True,
                 numbered_prob=0.3)
     gc = gen.Gen(chk.seed + 5, spaces="ov")
-    for k in range(150 if quick else 1500):
+    for k in range(150 if quick else 500):
         try:
             rename_case(chk, g, r, "lowest")
             rename_case(chk, g, r, "generic")
@@ -224,7 +224,8 @@ def run(chk):
                 rename_case(chk, gc, r, "lowest", crowded=True)
         except RuntimeError:
             chk.count("generator_gave_up")
-    chk.judge(chunk=2500)
+    # (large trace files are slow to deserialise in TLC: moderate chunks)
+    chk.judge(chunk=2500 if quick else 1000)
     if chk.tier != "quick":
         # system-level workflows (spec/Pipeline.tla): the steps that belong
         # to this property's operations
